@@ -203,6 +203,37 @@ def run(chk):
                 except Exception as e:  # noqa
                     if sum(len(s) for s in slabs[chunk * int(np.ceil(len(slabs) / 2)):(chunk + 1) * int(np.ceil(len(slabs) / 2))]) > 0:
                         chk.violation(f'chunk-raises-{type(e).__name__}', f'{desc} chunk {chunk}/2: {type(e).__name__}: {e}', payload)
+    # ---- a large particle table (tens of thousands of particles over a few unsorted halos): every host index must be right
+    try:
+        import asdf
+        import h5py
+        big = [[31, 10], [17], [24, 45]]
+        write_case(root, big, rng, False)
+        sub = os.path.join(root, 'subsample', SIM, 'z0.500')
+        per = [7000, 9001, 5003]
+        want_phid = []
+        for s_, ids in enumerate(big):
+            hids = [ids[j % len(ids)] for j in range(per[s_])]
+            want_phid += hids
+            with h5py.File(os.path.join(sub, f'particles_xcom_{s_}_seed600_abacushod_oldfenv_MT_new.h5'), 'w') as f:
+                f.create_dataset('particles', data=part_struct(hids, rng))
+        sim_params = dict(sim_name=SIM, sim_dir=os.path.join(root, 'sim'), subsample_dir=os.path.join(root, 'subsample'), output_dir=os.path.join(root, 'out'), z_mock=0.5, force_mt=True)
+        HOD_params = dict(tracer_flags=dict(LRG=True, ELG=False, QSO=False), LRG_params={}, want_ranks=False, want_AB=True, want_shear=False, want_expvel=False, want_rsd=True)
+        with warnings.catch_warnings():
+            warnings.simplefilter('ignore')
+            b = AbacusHOD(sim_params, HOD_params)
+        nrun += 1
+        pinds = np.asarray(b.particle_data['pinds']).astype(np.int64)
+        hidb = np.asarray(b.halo_data['hid']).astype(np.int64)
+        phid = np.asarray(b.particle_data['phid']).astype(np.int64)
+        if phid.tolist() != want_phid:
+            chk.violation('particle-order-large', 'large particle table: particle host ids are not in file order', dict(slabs=big))
+        elif np.any(pinds < 0) or np.any(pinds >= len(hidb)) or not np.array_equal(hidb[np.clip(pinds, 0, len(hidb) - 1)], phid):
+            nbad = int(np.sum(hidb[np.clip(pinds, 0, len(hidb) - 1)] != phid))
+            first = int(np.argmax(hidb[np.clip(pinds, 0, len(hidb) - 1)] != phid))
+            chk.violation('particle-host-index-large', f'{len(phid)} particles over unsorted halos {big}: {nbad} host indices do not point to the halo the particle records (first at particle {first})', dict(slabs=big, per=per))
+    except Exception as e:  # noqa
+        chk.violation(f'large-table-raises-{type(e).__name__}', f'large particle table: {type(e).__name__}: {e}', {})
     # ---- extended coverage (beyond C12): the chunks of n_chunks <= nfiles tile the slab files (TLC: ChunkTheorem); union over chunks = every halo once
     try:
         et = "---- MODULE MC_HodChunks ----\nEXTENDS HodStaging\nVARIABLE v\nASSUME ChunkTheorem(16)\nInit == v = 0\nNext == v' = v\n====\n"
